@@ -80,7 +80,8 @@ type ConnResult = Result<(), aldrin_broker::ConnectionError<channel::Disconnecte
 struct SimConn {
     client: Option<Pin<Box<Unbounded>>>,
     task: Option<Task<ConnResult>>,
-    handle: ConnectionHandle,
+    /// given up once the connection's task has ended, so that the broker's allocator can hand the id out again
+    handle: Option<ConnectionHandle>,
     version: u32,
     /// the broker no longer knows this connection (as far as the harness can tell)
     gone: bool,
@@ -167,7 +168,7 @@ impl Sim {
                     other => return Err(format!("accepted but reply is {:?}", other)),
                 };
                 let h = conn.handle().clone();
-                self.conns.push(SimConn { client: Some(client), task: Some(Task::new(conn.run())), handle: h, version: negotiated, gone: false });
+                self.conns.push(SimConn { client: Some(client), task: Some(Task::new(conn.run())), handle: Some(h), version: negotiated, gone: false });
                 self.settle(false);
                 Ok(self.conns.len() - 1)
             }
@@ -1213,6 +1214,12 @@ impl<'a> Scenario<'a> {
     }
 
     fn forget_conn(&mut self, c: usize) {
+        // the connection's task has ended by itself: nothing of the harness refers to the connection any more, and with
+        // the handle the last clone of its id goes once the broker has removed it (ids are reused by later connects)
+        if self.sim.conns[c].task.as_ref().map_or(false, |t| t.done()) && self.rng.chance(2, 3) {
+            self.sim.conns[c].handle = None;
+            self.out.count("conn.handle_released");
+        }
         self.pools.incoming_calls.retain(|k| k.0 != c);
         self.pools.incoming_iqueries.retain(|k| k.0 != c);
         self.pools.outgoing_calls.retain(|k| k.0 != c);
@@ -1253,7 +1260,7 @@ impl<'a> Scenario<'a> {
             }
             2 => {
                 // forced by the broker handle
-                let h = self.sim.conns[c].handle.clone();
+                let h = self.sim.conns[c].handle.clone().expect("a live connection keeps its handle");
                 let mut handle = self.sim.handle.clone();
                 let _ = self.sim.run_aux(async move { handle.shutdown_connection(&h).await }, false);
                 let obs = self.observe();
@@ -1271,7 +1278,7 @@ impl<'a> Scenario<'a> {
                 self.out.emit(&format!("bev {}", dropped), "fin=0");
                 self.sim.conns[c].client = None;
                 // a shutdown_connection makes the broker notice deterministically
-                let h = self.sim.conns[c].handle.clone();
+                let h = self.sim.conns[c].handle.clone().expect("a live connection keeps its handle");
                 let mut handle = self.sim.handle.clone();
                 let _ = self.sim.run_aux(async move { handle.shutdown_connection(&h).await }, false);
                 let obs = self.observe();
@@ -1304,7 +1311,7 @@ impl<'a> Scenario<'a> {
         // dropped tasks that the broker has not noticed yet keep it alive: make it notice
         for c in 0..self.sim.conns.len() {
             if self.sim.conns[c].task.is_none() && !self.sim.broker.done() {
-                let h = self.sim.conns[c].handle.clone();
+                let Some(h) = self.sim.conns[c].handle.clone() else { continue };
                 let mut handle = self.sim.handle.clone();
                 let _ = self.sim.run_aux(async move { handle.shutdown_connection(&h).await }, false);
                 let obs = self.observe();
